@@ -46,8 +46,11 @@ pub enum Ev {
     Yield(SocketAddr),
     /// RoutingTable::add_nodes(Node::as_good(responder), hearsay handles)
     TableAdd(NodeHandle, Seq<NodeHandle>),
-    /// RoutingTable::find_node_mut(handle): at most the one existing live record with that handle is handed out for marking
-    TableFind(NodeHandle),
+    /// RoutingTable::find_node_mut(handle): at most the one existing live record with that handle is handed out for marking;
+    /// the flag tells whether a record was found
+    TableFind(NodeHandle, bool),
+    /// Node::remote_request (false: "this node queried us") / Node::local_request (true: "we queried this node") on the record of that handle
+    Mark(NodeHandle, bool),
     /// TableLookup::new(info_hash, announce)
     LookupStart(InfoHash, bool),
 }
@@ -91,8 +94,8 @@ pub struct Node { pub handle: NodeHandle }
 impl Clone for Node { #[verifier::external_body] fn clone(&self) -> (r: Node) ensures r == *self { unimplemented!() } }
 impl Node {
     #[verifier::external_body] pub fn as_good(id: NodeId, addr: SocketAddr) -> (r: Node) ensures r.handle.id == id, r.handle.addr == addr { unimplemented!() }
-    #[verifier::external_body] pub fn remote_request(&mut self) ensures final(self).handle == old(self).handle { unimplemented!() }
-    #[verifier::external_body] pub fn local_request(&mut self) ensures final(self).handle == old(self).handle { unimplemented!() }
+    #[verifier::external_body] pub fn remote_request(&mut self, Tracked(tr): Tracked<&mut Trace>) ensures final(self).handle == old(self).handle, final(tr).ev == old(tr).ev.push(Ev::Mark(old(self).handle, false)) { unimplemented!() }
+    #[verifier::external_body] pub fn local_request(&mut self, Tracked(tr): Tracked<&mut Trace>) ensures final(self).handle == old(self).handle, final(tr).ev == old(tr).ev.push(Ev::Mark(old(self).handle, true)) { unimplemented!() }
     #[verifier::external_body] pub fn addr(&self) -> (r: SocketAddr) ensures r == self.handle.addr { unimplemented!() }
     #[verifier::external_body] pub fn handle(&self) -> (r: &NodeHandle) ensures *r == self.handle { unimplemented!() }
     #[verifier::external_body] pub fn status(&self) -> (r: NodeStatus) ensures r == spec_status(*self) { unimplemented!() }
@@ -119,7 +122,7 @@ pub struct RoutingTable { pub node_id: NodeId, pub routers: HashSet<SocketAddr> 
 impl RoutingTable {
     #[verifier::external_body]
     pub fn find_node_mut<'a>(&'a mut self, node: &'_ NodeHandle, Tracked(tr): Tracked<&mut Trace>) -> (r: Option<&'a mut Node>)
-        ensures final(tr).ev == old(tr).ev.push(Ev::TableFind(*node))
+        ensures final(tr).ev == old(tr).ev.push(Ev::TableFind(*node, r is Some)), r is Some ==> r->0.handle == *node
     { unimplemented!() }
     #[verifier::external_body]
     pub fn add_nodes(&mut self, node: Node, questionable_nodes: &[NodeHandle], Tracked(tr): Tracked<&mut Trace>)
@@ -193,6 +196,69 @@ pub open spec fn only_requests_and_yields(o: Seq<Ev>, f: Seq<Ev>) -> bool {
 /// every message sent between o and f is a query
 pub open spec fn sends_only_requests(o: Seq<Ev>, f: Seq<Ev>) -> bool {
     extends(o, f) && forall|i: int| o.len() <= i < f.len() && #[trigger] f[i] is Send ==> f[i]->Send_0.body is Request
+}
+/// C10 / C11 / C12: marking discipline between o and f.  A record is marked only right after it was looked up by its (id, address) handle and found,
+/// always in the direction `we_queried` (true: we sent it a query; false: it sent us one); and every record that was looked up and found IS marked.
+#[verifier::opaque]
+pub open spec fn marks_ok(o: Seq<Ev>, f: Seq<Ev>, we_queried: bool) -> bool {
+    &&& extends(o, f)
+    &&& forall|i: int| o.len() <= i < f.len() && #[trigger] f[i] is Mark ==> i > o.len() && f[i - 1] == Ev::TableFind(f[i]->Mark_0, true) && f[i]->Mark_1 == we_queried
+    &&& forall|i: int| o.len() <= i < f.len() && #[trigger] f[i] is TableFind && f[i]->TableFind_1 ==> i + 1 < f.len() && f[i + 1] == Ev::Mark(f[i]->TableFind_0, we_queried)
+}
+/// marks_ok is kept by appending an event that is neither a lookup nor a mark
+pub proof fn lemma_marks_other(o: Seq<Ev>, m: Seq<Ev>, e: Ev, w: bool)
+    requires marks_ok(o, m, w), !(e is Mark), !(e is TableFind)
+    ensures marks_ok(o, m.push(e), w)
+{
+    reveal(marks_ok);
+    let f = m.push(e);
+    assert forall|i: int| o.len() <= i < f.len() && #[trigger] f[i] is Mark implies i > o.len() && f[i - 1] == Ev::TableFind(f[i]->Mark_0, true) && f[i]->Mark_1 == w by {
+        assert(i < m.len()); assert(m[i] is Mark);
+    }
+    assert forall|i: int| o.len() <= i < f.len() && #[trigger] f[i] is TableFind && f[i]->TableFind_1 implies i + 1 < f.len() && f[i + 1] == Ev::Mark(f[i]->TableFind_0, w) by {
+        assert(i < m.len()); assert(m[i] is TableFind);
+    }
+}
+/// ... by a lookup that found nothing
+pub proof fn lemma_marks_miss(o: Seq<Ev>, m: Seq<Ev>, h: NodeHandle, w: bool)
+    requires marks_ok(o, m, w)
+    ensures marks_ok(o, m.push(Ev::TableFind(h, false)), w)
+{
+    reveal(marks_ok);
+    let f = m.push(Ev::TableFind(h, false));
+    assert forall|i: int| o.len() <= i < f.len() && #[trigger] f[i] is Mark implies i > o.len() && f[i - 1] == Ev::TableFind(f[i]->Mark_0, true) && f[i]->Mark_1 == w by {
+        assert(i < m.len()); assert(m[i] is Mark);
+    }
+    assert forall|i: int| o.len() <= i < f.len() && #[trigger] f[i] is TableFind && f[i]->TableFind_1 implies i + 1 < f.len() && f[i + 1] == Ev::Mark(f[i]->TableFind_0, w) by {
+        assert(i < m.len()); assert(m[i] is TableFind);
+    }
+}
+/// ... and by a lookup that found the record followed by its mark
+pub proof fn lemma_marks_hit(o: Seq<Ev>, m: Seq<Ev>, h: NodeHandle, w: bool)
+    requires marks_ok(o, m, w)
+    ensures marks_ok(o, m.push(Ev::TableFind(h, true)).push(Ev::Mark(h, w)), w)
+{
+    reveal(marks_ok);
+    let f = m.push(Ev::TableFind(h, true)).push(Ev::Mark(h, w));
+    assert forall|i: int| o.len() <= i < f.len() && #[trigger] f[i] is Mark implies i > o.len() && f[i - 1] == Ev::TableFind(f[i]->Mark_0, true) && f[i]->Mark_1 == w by {
+        if i < m.len() { assert(m[i] is Mark); }
+    }
+    assert forall|i: int| o.len() <= i < f.len() && #[trigger] f[i] is TableFind && f[i]->TableFind_1 implies i + 1 < f.len() && f[i + 1] == Ev::Mark(f[i]->TableFind_0, w) by {
+        if i < m.len() { assert(m[i] is TableFind); }
+    }
+}
+pub proof fn lemma_marks_refl(o: Seq<Ev>, w: bool) ensures marks_ok(o, o, w) { reveal(marks_ok); }
+pub proof fn lemma_marks_trans(o: Seq<Ev>, m: Seq<Ev>, f: Seq<Ev>, w: bool)
+    requires marks_ok(o, m, w), marks_ok(m, f, w)
+    ensures marks_ok(o, f, w)
+{
+    reveal(marks_ok);
+    assert forall|i: int| o.len() <= i < f.len() && #[trigger] f[i] is Mark implies i > o.len() && f[i - 1] == Ev::TableFind(f[i]->Mark_0, true) && f[i]->Mark_1 == w by {
+        if i < m.len() { assert(m[i] is Mark); assert(f[i - 1] == m[i - 1]); }
+    }
+    assert forall|i: int| o.len() <= i < f.len() && #[trigger] f[i] is TableFind && f[i]->TableFind_1 implies i + 1 < f.len() && f[i + 1] == Ev::Mark(f[i]->TableFind_0, w) by {
+        if i < m.len() { assert(m[i] is TableFind); assert(f[i + 1] == m[i + 1]); }
+    }
 }
 pub open spec fn no_table_add(o: Seq<Ev>, f: Seq<Ev>) -> bool { extends(o, f) && forall|i: int| o.len() <= i < f.len() ==> !(#[trigger] f[i] is TableAdd) }
 pub open spec fn no_yield(o: Seq<Ev>, f: Seq<Ev>) -> bool { extends(o, f) && forall|i: int| o.len() <= i < f.len() ==> !(#[trigger] f[i] is Yield) }
